@@ -19,20 +19,21 @@ UNITS = [
     Verus('c13_linear_perspective', build_lp, min_verified=17,
           contract='in-flight perspective (LinearFactPerspective overlay over any prior): insert => the key reads the value; delete => the key reads None whatever the prior holds '
                    '(tombstone with a prior, removal without); every other key unchanged; query = overlay entry if present else the prior\'s fact; apply_updates = the same flat-map steps in order'),
-    Verus('c12_fact_index_chain', build_fc, min_verified=8,
+    Verus('c12_fact_index_chain', build_fc, min_verified=12,
           contract='committed fact indexes (LinearFactIndex::{query, query_prefix_inner}, chains of any length): query returns the entry of the NEWEST index in the chain that mentions the key '
                    '(a tombstone reads as absent); query_prefix_inner returns exactly the keys with the prefix that some index in the chain mentions, each with its newest entry '
-                   '(newer values and tombstones shadow older ones; no key of an older index is dropped); both walks terminate'),
+                   '(newer values and tombstones shadow older ones; no key of an older index is dropped); both walks terminate; '
+                   'LinearFactPerspective::query_prefix_inner (in-flight perspective over another perspective or over a committed chain, any nesting depth): exactly the keys with the prefix that the overlay or anything below mentions, each with the overlay entry if there is one, else the entry from below'),
 ]
 TRUSTED = ['vstd BTreeMap model', 'R6 type shims', 'for the in-flight unit the prior (committed fact index chain / outer perspective) is an arbitrary fixed function',
            'index chain unit: Read::fetch returns the index stored at the offset; prior links lead to strictly smaller depth (FactIndexRepr.depth = prior.depth + 1, established by the writer, not checked); '
            'find_prefixes yields exactly the entries whose key starts with the prefix (BTreeMap::range + take_while; external contract)']
 ASSUMPTIONS = ['NOT covered: depth-limited compaction (LinearStorage::compact), how write_facts builds the chain, mid-segment state rebuilt from per-command updates (get_fact_perspective), '
-               'prefix queries on in-flight perspectives (LinearFactPerspective::query_prefix_inner), ascending order / tombstone filtering of QueryIterator (std BTreeMap::into_iter order is assumed)']
+               'ascending order / tombstone filtering of QueryIterator (std BTreeMap::into_iter order is assumed; QueryIterator::next skips tombstones — read, not under contract)']
 EXPLANATION = 'Flat-map semantics proved unbounded for the in-memory overlay (exact queries) and for the committed index chain (exact and prefix queries, newest-first shadowing).'
 MANIFEST = {
     'text': 'Partial proof: exact-query flat-map semantics of the in-flight fact perspective (inserts, deletes, tombstones shadowing any prior) for any number of operations. '
-            'Exact and prefix queries on committed index chains of any length return the newest entry per key (tombstones shadow older values, nothing is dropped). Compaction and chain construction are not decided.',
-    'note': 'Covers LinearFactPerspective::{insert, delete, query, apply_updates, clear} and LinearFactIndex::{query, query_prefix_inner}.',
+            'Exact and prefix queries on committed index chains of any length, and prefix queries on in-flight perspectives stacked on them, return the newest entry per key (tombstones shadow older values, nothing is dropped). Compaction and chain construction are not decided.',
+    'note': 'Covers LinearFactPerspective::{insert, delete, query, apply_updates, clear, query_prefix_inner} and LinearFactIndex::{query, query_prefix_inner}.',
     'technique': 'Verus on extracted LinearFactPerspective / LinearFactIndex methods over vstd BTreeMap specs',
 }
